@@ -2,7 +2,7 @@
 # Confirm every agent-produced mutant independently: (1) existing suite passes with the change, (2) its demo fails with the change,
 # (3) its demo passes without it.  Results -> /var/tmp/cm-results/<prop>-<n>.txt ; scratch worktree + target removed at the end.
 set -u
-RES=/var/tmp/cm-results; mkdir -p $RES
+RES=${CMRES:-/var/tmp/cm-results}; mkdir -p $RES
 WT=/var/tmp/cm-wt; TGT=/var/tmp/cm-target
 git -C /repo worktree remove --force $WT >/dev/null 2>&1; rm -rf $WT
 git -C /repo worktree add --detach $WT HEAD >/dev/null 2>&1 || exit 3
@@ -10,7 +10,7 @@ export CARGO_TARGET_DIR=$TGT CARGO_NET_OFFLINE=true RUST_BACKTRACE=0
 cd $WT
 for P in "$@"; do
   for N in 1 2; do
-    D=/tmp/mut/$P/MUTANTS
+    D=${MUTBASE:-/tmp/mut}/$P/MUTANTS
     [ -f $D/m$N.diff ] || { echo "$P m$N: missing" > $RES/$P-$N.txt; continue; }
     git checkout -q -- . ; rm -f tests/mutdemo_*.rs
     OUT=$RES/$P-$N.txt; : > $OUT
